@@ -56,6 +56,8 @@ def call(eng, st, f, args, kwargs):
             return SRange(0, args[0])
         if len(args) == 2:
             return SRange(args[0], args[1])
+        if len(args) == 3 and isinstance(args[2], int) and args[2] == 1:
+            return SRange(args[0], args[1])
         raise EngineUnsupported("range with step")
     if f is isinstance:
         x, cls = args
